@@ -9,6 +9,7 @@
 package overlay
 
 import (
+	"bytes"
 	"encoding/json"
 	"fmt"
 	"go/parser"
@@ -24,6 +25,8 @@ type Stats struct {
 	FilesScanned   int
 	FilesRewritten int
 	Injected       int
+	// OrderedRanges: files in which a map range was given a fixed order
+	OrderedRanges int
 }
 
 // rewrite rules: import path -> shim path; Only restricts to directories
@@ -40,6 +43,62 @@ var rules = []rule{
 	{from: "syscall", to: "verif/shim/syscall", only: []string{"pkg/blobserver/diskpacked"}},
 	// WaitForBlob's deadline timer: see shim/time (fake-clock livelock at now == deadline)
 	{from: "time", to: "verif/shim/time", only: []string{"pkg/blobserver"}},
+}
+
+// orderedRange: places where perkeep ranges over a Go map and the order in
+// which it does decides what happens next (which pending blob the sync handler
+// copies first, which ready blob the index re-indexes first). Go randomises
+// that order from a source no plan reaches; every order is legal, so the
+// overlay fixes one (sorted keys) to keep a run a function of its plan. The
+// rewrite is textual and applies only while the line reads exactly as listed:
+// on a tree where it has changed, nothing is rewritten and the order stays
+// Go's (sound, merely less repeatable).
+type orderedRange struct {
+	file, from, to string
+}
+
+var orderedRanges = []orderedRange{
+	{"pkg/server/sync.go",
+		"for br, size := range sh.needCopy {",
+		"for _, br := range verifsimcore.SortedKeys(sh.needCopy) {\n\t\t\tsize := sh.needCopy[br]"},
+	{"pkg/index/receive.go",
+		"for br = range ix.readyReindex {",
+		"for _, br = range verifsimcore.SortedKeys(ix.readyReindex) {"},
+	{"pkg/index/index.go",
+		"for missing := range x.neededBy {",
+		"for _, missing := range verifsimcore.SortedKeys(x.neededBy) {\n\t\t\tif _, still := x.neededBy[missing]; !still {\n\t\t\t\tcontinue // deleted while ranging: Go would not produce it either\n\t\t\t}"},
+}
+
+// applyOrderedRanges rewrites the listed range statements of file rel in src.
+func applyOrderedRanges(rel string, src []byte) ([]byte, bool) {
+	changed := false
+	for _, o := range orderedRanges {
+		if o.file != rel || bytes.Count(src, []byte(o.from)) != 1 {
+			continue
+		}
+		src = bytes.Replace(src, []byte(o.from), []byte(o.to), 1)
+		changed = true
+	}
+	if !changed {
+		return src, false
+	}
+	// a second import declaration right after the package clause
+	i := bytes.Index(src, []byte("\npackage "))
+	if i < 0 {
+		if !bytes.HasPrefix(src, []byte("package ")) {
+			return src, false
+		}
+		i = -1
+	}
+	j := bytes.IndexByte(src[i+1:], '\n')
+	if j < 0 {
+		return src, false
+	}
+	at := i + 1 + j + 1
+	out := append([]byte(nil), src[:at]...)
+	out = append(out, []byte("\nimport verifsimcore \"verif/simcore\"\n")...)
+	out = append(out, src[at:]...)
+	return out, true
 }
 
 // skipDirs are perkeep trees that need services unavailable offline or are
@@ -138,13 +197,17 @@ func generate(repo, workDir, injectDir string, enableOSShim, rewrite bool, name 
 					edits = append(edits, edit{s, e, text})
 				}
 			}
-			if len(edits) == 0 {
-				return nil
-			}
 			sort.Slice(edits, func(i, j int) bool { return edits[i].start > edits[j].start })
 			out := append([]byte(nil), src...)
 			for _, e := range edits {
 				out = append(out[:e.start], append([]byte(e.text), out[e.end:]...)...)
+			}
+			out, ordered := applyOrderedRanges(filepath.ToSlash(rel), out)
+			if ordered {
+				st.OrderedRanges++
+			}
+			if len(edits) == 0 && !ordered {
+				return nil
 			}
 			dst := filepath.Join(outRoot, rel)
 			if err := os.MkdirAll(filepath.Dir(dst), 0o755); err != nil {
